@@ -56,6 +56,23 @@ def run(ctx):
                 dict(got=[float(x) for x in cp[:5]], finite_difference_of_storage=[float(x) for x in want[:5]], So=[float(x) for x in so[:5]], Sg=[float(x) for x in (1 - so - sw)[:5]]))
         if kind == "constant" and np.abs(cp).max() > 1e-12 * scale:
             bad("multiphase compressibility does not vanish for pressure-independent tables", inp, float(np.abs(cp).max()))
+        # pressure and saturation held as pandas Series taken from two different frames (cell pressures indexed by cell id, saturations
+        # with the default index): the arguments are paired by POSITION, as for arrays
+        if k < (4 if ctx.quick else 60):
+            import pandas as pd
+            p_ser = pd.Series(p, index=np.arange(len(p)) * 3 + 100)
+            so_ser = pd.Series(so)
+            ev += 1
+            try:
+                with warnings.catch_warnings():
+                    warnings.simplefilter("ignore")
+                    cp_ser = np.asarray(compressibility_combined_func(p_ser, so_ser, phi, sw, pvt), float)
+            except Exception as e:  # noqa: BLE001
+                cp_ser = None
+                bad("multiphase compressibility fails when pressure and saturation are pandas Series with different indexes", inp, repr(e)[:200])
+            if cp_ser is not None and (cp_ser.shape != cp.shape or not np.allclose(cp_ser, cp, rtol=1e-12, atol=0, equal_nan=False)):
+                bad("multiphase compressibility pairs pressure and saturation by LABEL instead of by position when both are pandas Series with different indexes", inp,
+                    dict(shape=list(cp_ser.shape), got=[float(x) for x in cp_ser.ravel()[:5]], as_arrays=[float(x) for x in cp[:5]]))
         cp2 = np.asarray(compressibility_combined_func(p, so, 2.5 * phi, sw, pvt), float)
         ev += 1
         if not np.allclose(cp2, 2.5 * cp, rtol=1e-10, atol=1e-14 * scale):
